@@ -425,7 +425,7 @@ func c13Scenarios(apiLen, pktLen int) []*concScenario {
 
 func c13Run(c *core.Ctx, args []string) {
 	c.Res.Level = "model_checking"
-	c.Res.Rule = "outer enumeration: every API history of length <=2 (thorough <=3) over {StartHunt(t1), StartHunt(t2), StopHunt(t1), StopHunt(t2), Close} on the caller thread x every packet sequence of length <=1 (thorough: <=2 for API length <=2) over 11 ARP packets (requests from hunted and non-hunted hosts, probes with/without/equal offers and off-LAN targets, announcement, reply) on the packet-loop thread; inner: stateless DFS over all schedules (threads, spoof loops, ticker firings in virtual time) up to the deviation bound (one more for the API histories of length <=2 without packets), followed by two spoof cycles, Close, and two more cycles. A linear-time monitor over the emitted ARP frames and the API call/return log checks confinement, probe-reject conditions, undo on StopHunt (corrective packet within one cycle, no forged packet afterwards), idempotent StartHunt and Close. distinct = distinct observation vectors"
+	c.Res.Rule = "outer enumeration: every API history of length <=2 (thorough <=3) over {StartHunt(t1), StartHunt(t2), StopHunt(t1), StopHunt(t2), Close, StartHunt(t1 under another IP)} plus nine histories of length 3 with two hunted targets (also: two MACs hunted under ONE address) on the caller thread x every packet sequence of length <=1 (thorough: <=2 for API length <=2) over 11 ARP packets (requests from hunted and non-hunted hosts, probes with/without/equal offers and off-LAN targets, announcement, reply, a station announcing itself under the router's address; t2 is a known station without offer) on the packet-loop thread; inner: stateless DFS over all schedules (threads, spoof loops, ticker firings in virtual time) up to the deviation bound (one more for the API histories of length <=2 without packets), followed by two spoof cycles, Close, and two more cycles. A linear-time monitor over the emitted ARP frames and the API call/return log checks confinement, probe-reject conditions, undo on StopHunt (corrective packet within one cycle, no forged packet afterwards), idempotent StartHunt and Close. distinct = distinct observation vectors"
 	c.Res.Assumptions = []string{"one forged announcement per loop may still leave after StopHunt returned (the loop had passed its membership check): the property's 'no further' is read per loop cycle", "a StopHunt/StartHunt pair may leave two loops for one target (not constrained by the statement)", "time is virtual: 'within one cycle' is checked on the virtual clock"}
 	apiLen, pktLen, bound := 2, 1, 1
 	if c.Thorough() {
